@@ -36,7 +36,7 @@ CONFIGS = {
                 "distinct = distinct (ruleset, flags, cut sequences)",
         "components": _COMPONENTS,
         "assumptions": ["the quit is noticed after a pop, as the session loop does; thread scheduling is C12's subject",
-                        "each cycle re-enters main() in the same interpreter with fresh grammar/queue/session objects",
+                        "seeded runs: each cycle re-enters main() in the same interpreter with fresh grammar/queue/session objects; the fresh-interpreter phase runs every cycle of a few worlds in a child interpreter with its own PYTHONHASHSEED",
                         "flags are repeated on the --load command line (flags-from-save is C14's clause)"],
         "quick_budget_s": 35, "thorough_budget_s": 900, "chunk": 6,
     },
@@ -51,7 +51,7 @@ CONFIGS = {
                 "non-trivial = quit strictly inside a level (0 < j < n); distinct = distinct (world, history)",
         "components": _COMPONENTS,
         "assumptions": ["order of the restored remainder relative to the uninterrupted run is recorded as a probe, not judged",
-                        "each cycle re-enters main() in the same interpreter with fresh grammar/queue/session/optimizer objects"],
+                        "seeded runs: each cycle re-enters main() in the same interpreter with fresh grammar/queue/session/optimizer objects; the fresh-interpreter phase runs every cycle of a few worlds in a child interpreter with its own PYTHONHASHSEED"],
         "quick_budget_s": 35, "thorough_budget_s": 900, "chunk": 6,
     },
 }
@@ -79,7 +79,13 @@ def key_of(e):
     return (e["base_prob"], e["pt"])
 
 
+_FRESH = [None]      # when set: a callable giving the string-hash seed of the next child interpreter
+
+
 def run_cycle(flags, load, trigger, knobs=None):
+    if _FRESH[0] is not None:
+        from .. import freshproc
+        return freshproc.run_cycle(argv_for(flags, load), trigger, knobs, _FRESH[0]())
     ctx = session.SessionCtx(trigger=trigger, knobs=knobs)
     r = session.run_main(argv_for(flags, load), ctx)
     E = session.emitted_preterminals(ctx)
@@ -300,12 +306,17 @@ def run_c08(tape, tier, res):
         res.rejected = "tiny_stream"
         return
     histories = []
-    if tier == "thorough" or n <= 24:
+    fresh = _FRESH[0] is not None
+    if fresh:
+        pass        # every cycle is a child interpreter (~0.3 s): sampled histories only
+    elif tier == "thorough" or n <= 24:
         # fault enumeration: every single cut point of this world
         histories.extend([[("pop", k)] for k in range(1, n + 1)])
         res.stats["worlds_with_every_cut_enumerated"] += 1
         res.stats["cut_points_enumerated"] += n
-    if tier == "thorough":
+    if fresh:
+        nmulti = 3
+    elif tier == "thorough":
         histories.extend([[("pop", k), ("start",)] for k in range(1, n + 1, 3)])
         nmulti = 8
     else:
@@ -441,7 +452,9 @@ def run_c15(tape, tier, res):
                 out.append(("pop", 1))
         return out
 
-    if tier == "thorough":
+    if _FRESH[0] is not None:
+        nsample = 3
+    elif tier == "thorough":
         for m, e in usable[:3]:
             n = len(e["lines"])
             js = list(range(1, n + 1))
@@ -487,11 +500,51 @@ def run_c15(tape, tier, res):
     res.digest = digest_of([[(e["pt"], e["prob"], e["lines"]) for e in U], shapes, [v.as_dict() for v in res.violations]])
 
 
+def _fresh_job(prop, seed):
+    """one world whose every cycle (the uninterrupted reference run included) is a child interpreter with its own
+    PYTHONHASHSEED; only S.sav / S.omn on the scratch disk connect the cycles"""
+    from ..tape import Tape
+    count = [0]
+
+    def next_hash_seed():
+        count[0] += 1
+        return 1 + (seed * 31 + count[0] * 7919) % 100003
+    _FRESH[0] = next_hash_seed
+    try:
+        t = Tape(seed=seed)
+        res = run_one(t, "quick", prop)
+    finally:
+        _FRESH[0] = None
+    return {"seed": seed, "tape": list(t.rec), "children": count[0], "rejected": res.rejected,
+            "violations": [v.as_dict() for v in res.violations if v.prop == prop],
+            "cycles": res.stats.get("cycles", 0), "histories": res.stats.get("histories", 0),
+            "strict": res.stats.get("quit_strictly_inside_level", 0)}
+
+
+def fresh_phase(prop, tier, base_seed):
+    from .. import bigworld
+    n = 4 if tier == "quick" else 64
+    seeds = [base_seed * 9001 + 700 + i for i in range(n)]
+    out = {"fresh_interpreter_worlds": 0, "fresh_interpreter_cycles": 0, "fresh_interpreter_children": 0, "violations": []}
+    for r in bigworld._fan_out(_fresh_job, [(prop, sd) for sd in seeds], workers=12):
+        if r["rejected"]:
+            continue
+        out["fresh_interpreter_worlds"] += 1
+        out["fresh_interpreter_cycles"] += r["cycles"]
+        out["fresh_interpreter_children"] += r["children"]
+        for v in r["violations"][:1]:
+            v = dict(v, kind="fresh_interpreter:" + v["kind"])
+            out["violations"].append({"seed": r["seed"], "tape": [], "violation": v, "case": None})
+    return out
+
+
 def extra_phase(tier, base_seed, prop="C08"):
     from .. import bigworld
-    if prop == "C15":
-        return bigworld.omen_phase(tier, base_seed)
-    return bigworld.resume_phase(tier, base_seed)
+    out = fresh_phase(prop, tier, base_seed)
+    big = bigworld.omen_phase(tier, base_seed) if prop == "C15" else bigworld.resume_phase(tier, base_seed)
+    out["violations"].extend(big.pop("violations", []))
+    out.update(big)
+    return out
 
 
 def run_one(tape, tier, prop):
